@@ -102,17 +102,24 @@ pub fn leaf_variant(v: Variant) -> Option<LeafCircuit> {
 }
 
 fn prove_on(lc: &LeafCircuit, v: Variant, rng: &mut impl Rng) -> Option<Proof> {
+    prove_on_kind(lc, v, rng, false)
+}
+
+/// `dummy`: a dummy-sentinel statement (zero block hash and outputs), which the wrappers exempt from every cross-slot check
+fn prove_on_kind(lc: &LeafCircuit, v: Variant, rng: &mut impl Rng, dummy: bool) -> Option<Proof> {
     let depth = rng.gen_range(0..4usize);
-    let mut a = LeafAsg::baseline(rng, &BaselineOpts { depth, dummy: false });
+    let mut a = LeafAsg::baseline(rng, &BaselineOpts { depth, dummy });
     a.asset = F::ZERO;
-    a.recompute(false);
+    a.recompute(dummy);
     match v {
         Variant::ExtraCopyConstraint => a.exit2[0] = a.exit1[0],
         Variant::ExtraConstantGate => a.exit2[1] = a.exit1[1] + crate::cso::f(0xC0FFEE),
         Variant::NullifierBindingRemoved => a.nullifier = rand_d4(rng), // a statement the canonical circuit cannot attest
         Variant::RootBindingRemoved => {
             a.hdr_root = rand_d4(rng);
-            a.block_hash = crate::leaf::header_hash(&a.parent, a.hdr_number, &a.state_root, &a.extr_root, &a.hdr_root, &a.digest);
+            if !dummy {
+                a.block_hash = crate::leaf::header_hash(&a.parent, a.hdr_number, &a.state_root, &a.extr_root, &a.hdr_root, &a.digest);
+            }
         }
         _ => {}
     }
@@ -130,19 +137,26 @@ struct Outer {
 }
 
 fn judge_foreign(rep: &Report, outer: &Outer, proof: &Proof, child_label: &str, expect_accept: bool, foreign_key: Option<Vec<F>>) {
+    let slots: Vec<&Proof> = outer.proof_targets.iter().map(|_| proof).collect();
+    judge_foreign_slots(rep, outer, &slots, child_label, expect_accept, foreign_key)
+}
+
+/// one proof per proof target of the outer circuit
+fn judge_foreign_slots(rep: &Report, outer: &Outer, slots: &[&Proof], child_label: &str, expect_accept: bool, foreign_key: Option<Vec<F>>) {
+    let proof = slots[0];
     rep.eval();
     rep.count(&format!("child:{child_label}"));
     let mut pw = PartialWitness::new();
     let fill = catch_unwind(AssertUnwindSafe(|| {
         let mut ok = true;
-        for t in &outer.proof_targets {
-            if pw.set_proof_with_pis_target(t, proof).is_err() {
+        for (t, p) in outer.proof_targets.iter().zip(slots.iter()) {
+            if pw.set_proof_with_pis_target(t, *p).is_err() {
                 ok = false;
             }
         }
         ok
     }));
-    let case = json!({"outer": outer.label, "child": child_label, "child_public_inputs": proof.public_inputs.iter().map(|x| u(*x)).collect::<Vec<_>>()});
+    let case = json!({"outer": outer.label, "child": child_label, "child_public_inputs": slots.iter().map(|p| p.public_inputs.iter().map(|x| u(*x)).collect::<Vec<_>>()).collect::<Vec<_>>()});
     match fill {
         Ok(true) => {}
         _ => {
@@ -173,7 +187,8 @@ fn judge_foreign(rep: &Report, outer: &Outer, proof: &Proof, child_label: &str, 
     }
     let run = outer.cso.run(&pre, &pins, false);
     let ev = outer.cso.eval(&run);
-    rep.nontrivial(&(outer.label.clone(), child_label.to_string(), proof.public_inputs.iter().map(|x| u(*x)).collect::<Vec<_>>()));
+    rep.nontrivial(&(outer.label.clone(), child_label.to_string(), slots.iter().map(|p| p.public_inputs.iter().map(|x| u(*x)).collect::<Vec<_>>()).collect::<Vec<_>>()));
+    let _ = proof;
     if ev.accepted() != expect_accept {
         let (ok, _) = outer.cso.confirm(&run);
         if ok == ev.accepted() {
@@ -319,6 +334,94 @@ pub fn run_c11(ctx: &Ctx) -> i32 {
                     let Some(lp) = prove_on(lc, *v, &mut rng) else { continue };
                     if let Ok(pb) = fpriv.prove(&[lp], &pre) {
                         judge_foreign(&rep, &outer2, &pb, &format!("private batch over leaf variant {v:?}"), false, Some(verifier_key_felts(&fpriv.data)));
+                    }
+                }
+            }
+        }
+    }
+    // multi-slot outers: EVERY slot must be verified against the baked key. A foreign proof sits in exactly one slot
+    // (each position in turn), genuine canonical proofs in the others; the foreign statement (or the canonical one) is a
+    // dummy sentinel so that the wrapper's own cross-slot rules are satisfied and only recursive verification can object.
+    for n2 in ctx.tier.pick(vec![2usize], vec![2usize, 3]) {
+        if ctx.over_budget() {
+            break;
+        }
+        let Ok(full2) = PrivFull::build(&canon.cso.data, n2) else {
+            rep.note(&format!("private-batch circuit N={n2} did not build"));
+            continue;
+        };
+        let pre2: Vec<(Target, F)> = full2.targets.dummy_nullifier_pre_images.iter().enumerate().flat_map(|(i, ts)| ts.iter().enumerate().map(move |(j, t)| (*t, crate::cso::f((7 * i + j + 1) as u64))).collect::<Vec<_>>()).collect();
+        let pts2 = full2.targets.leaf_proofs.clone();
+        let Ok(c2) = Cso::new(full2.data) else { continue };
+        let outer_n = Outer { cso: c2, proof_targets: pts2, extra: pre2, label: format!("PrivateBatchCircuit(N={n2}) over the canonical leaf") };
+        let Some(canon_real) = prove_on_kind(&canon, Variant::Faithful, &mut rng, false) else { continue };
+        let canon_dummies: Vec<Proof> = (0..n2).filter_map(|_| prove_on_kind(&canon, Variant::Faithful, &mut rng, true)).collect();
+        if canon_dummies.len() < n2 {
+            rep.note("canonical dummy leaf proofs could not be produced");
+            continue;
+        }
+        // positive controls: the canonical real proof at each position, canonical dummies elsewhere
+        for pos in 0..n2 {
+            let slots: Vec<&Proof> = (0..n2).map(|i| if i == pos { &canon_real } else { &canon_dummies[i] }).collect();
+            judge_foreign_slots(&rep, &outer_n, &slots, &format!("canonical real at slot {pos}, canonical dummies elsewhere"), true, None);
+        }
+        for (v, lc) in variant_circuits.iter() {
+            if ctx.over_budget() {
+                break;
+            }
+            if lc.cso.data.verifier_only.circuit_digest == canon.cso.data.verifier_only.circuit_digest {
+                continue;
+            }
+            if !matches!(v, Variant::ExtraCopyConstraint | Variant::NullifierBindingRemoved | Variant::RootBindingRemoved | Variant::ExtraConstantGate) {
+                continue;
+            }
+            let foreign_dummy = prove_on_kind(lc, *v, &mut rng, true);
+            let foreign_real = prove_on_kind(lc, *v, &mut rng, false);
+            for pos in 0..n2 {
+                if let Some(fd) = &foreign_dummy {
+                    // canonical real in another slot, canonical dummies in the rest
+                    let real_at = (pos + 1) % n2;
+                    let slots: Vec<&Proof> = (0..n2).map(|i| if i == pos { fd } else if i == real_at { &canon_real } else { &canon_dummies[i] }).collect();
+                    judge_foreign_slots(&rep, &outer_n, &slots, &format!("{v:?} (dummy statement) at slot {pos} of {n2}, canonical elsewhere"), false, Some(verifier_key_felts(&lc.cso.data)));
+                }
+                if let Some(fr) = &foreign_real {
+                    let slots: Vec<&Proof> = (0..n2).map(|i| if i == pos { fr } else { &canon_dummies[i] }).collect();
+                    judge_foreign_slots(&rep, &outer_n, &slots, &format!("{v:?} (real statement) at slot {pos} of {n2}, canonical dummies elsewhere"), false, Some(verifier_key_felts(&lc.cso.data)));
+                }
+            }
+            if ctx.tier == crate::util::Tier::Quick {
+                // quick: two variants are enough per outer
+                if matches!(v, Variant::NullifierBindingRemoved) {
+                    break;
+                }
+            }
+        }
+    }
+    // public layer with two inner slots
+    if !ctx.over_budget() {
+        if let Ok(pc1) = PrivFull::build(&canon.cso.data, 1) {
+            if let Ok(pub2) = PubFull::build(&pc1.data, 2, 1) {
+                let addr: Vec<(Target, F)> = pub2.targets.aggregator_address.iter().map(|t| (*t, F::ONE)).collect();
+                let pts = pub2.targets.private_batch_proofs.clone();
+                if let Ok(c) = Cso::new(pub2.data) {
+                    let outer_p = Outer { cso: c, proof_targets: pts, extra: addr, label: "PublicBatchCircuit(M=2,N=1) over the canonical private batch".into() };
+                    let pre: Vec<D4> = vec![rand_d4(&mut rng)];
+                    let canon_real_pb = prove_on_kind(&canon, Variant::Faithful, &mut rng, false).and_then(|lp| pc1.prove(&[lp], &pre).ok());
+                    let canon_dummy_pb = prove_on_kind(&canon, Variant::Faithful, &mut rng, true).and_then(|lp| pc1.prove(&[lp], &pre).ok());
+                    if let (Some(cr), Some(cd)) = (&canon_real_pb, &canon_dummy_pb) {
+                        judge_foreign_slots(&rep, &outer_p, &[cr, cd], "canonical real inner, canonical all-dummy inner", true, None);
+                        judge_foreign_slots(&rep, &outer_p, &[cd, cr], "canonical all-dummy inner, canonical real inner", true, None);
+                        for (v, lc) in variant_circuits.iter().filter(|(v, _)| matches!(v, Variant::ExtraCopyConstraint | Variant::NullifierBindingRemoved)).take(ctx.tier.pick(1, 2)) {
+                            if lc.cso.data.verifier_only.circuit_digest == canon.cso.data.verifier_only.circuit_digest {
+                                continue;
+                            }
+                            let Ok(fpriv) = PrivFull::build(&lc.cso.data, 1) else { continue };
+                            let Some(fd) = prove_on_kind(lc, *v, &mut rng, true).and_then(|lp| fpriv.prove(&[lp], &pre).ok()) else { continue };
+                            judge_foreign_slots(&rep, &outer_p, &[cr, &fd], &format!("all-dummy private batch over leaf variant {v:?} at inner slot 1 of 2"), false, Some(verifier_key_felts(&fpriv.data)));
+                            judge_foreign_slots(&rep, &outer_p, &[&fd, cr], &format!("all-dummy private batch over leaf variant {v:?} at inner slot 0 of 2"), false, Some(verifier_key_felts(&fpriv.data)));
+                        }
+                    } else {
+                        rep.note("canonical private-batch proofs for the two-slot public outer could not be produced");
                     }
                 }
             }
